@@ -156,7 +156,7 @@ mutual
         obtain ⟨gens', hg, h⟩ := bind_ok h
         cases pure_ok h
         simp only [bnd]
-        exact app_sub (transf_bnd n _ elt elt' he) (transfComps_bnd n _ gens gens' hg)
+        exact app_sub (transf_bnd n _ elt elt' he) (transfComps_bnd n _ _ gens gens' hg)
     | b, .setComp elt gens, e', h => by
         simp only [transf] at h
         obtain ⟨names, _, h⟩ := bind_ok h
@@ -164,7 +164,7 @@ mutual
         obtain ⟨gens', hg, h⟩ := bind_ok h
         cases pure_ok h
         simp only [bnd]
-        exact app_sub (transf_bnd n _ elt elt' he) (transfComps_bnd n _ gens gens' hg)
+        exact app_sub (transf_bnd n _ elt elt' he) (transfComps_bnd n _ _ gens gens' hg)
     | b, .generatorExp elt gens, e', h => by
         simp only [transf] at h
         obtain ⟨names, _, h⟩ := bind_ok h
@@ -172,7 +172,7 @@ mutual
         obtain ⟨gens', hg, h⟩ := bind_ok h
         cases pure_ok h
         simp only [bnd]
-        exact app_sub (transf_bnd n _ elt elt' he) (transfComps_bnd n _ gens gens' hg)
+        exact app_sub (transf_bnd n _ elt elt' he) (transfComps_bnd n _ _ gens gens' hg)
     | b, .dictComp k v gens, e', h => by
         simp only [transf] at h
         obtain ⟨names, _, h⟩ := bind_ok h
@@ -181,7 +181,7 @@ mutual
         obtain ⟨gens', hg, h⟩ := bind_ok h
         cases pure_ok h
         simp only [bnd]
-        exact app_sub (app_sub (transf_bnd n _ k k' hk) (transf_bnd n _ v v' hv)) (transfComps_bnd n _ gens gens' hg)
+        exact app_sub (app_sub (transf_bnd n _ k k' hk) (transf_bnd n _ v v' hv)) (transfComps_bnd n _ _ gens gens' hg)
     | b, .joinedStr vs, e', h => by
         simp only [transf] at h
         obtain ⟨vs', hvs, h⟩ := bind_ok h
@@ -342,9 +342,9 @@ mutual
         simp only [bndK]; exact app_sub (transf_bnd n b v v' hv) (transfKeywords_bnd n b ks ks'' hk)
   termination_by structural _ x => x
 
-  theorem transfComps_bnd (n : Nsp) : ∀ (b : List String) (gs gs' : List Comp), transfComps n b gs = .ok gs' → bndG gs' ⊆ bndG gs
-    | b, [], gs', h => by simp only [transfComps] at h; cases h; exact fun _ h => h
-    | b, .mk t i ifs a :: gs, gs', h => by
+  theorem transfComps_bnd (n : Nsp) : ∀ (f b : List String) (gs gs' : List Comp), transfComps n f b gs = .ok gs' → bndG gs' ⊆ bndG gs
+    | f, b, [], gs', h => by simp only [transfComps] at h; cases h; exact fun _ h => h
+    | f, b, .mk t i ifs a :: gs, gs', h => by
         simp only [transfComps] at h
         obtain ⟨t', ht, h⟩ := bind_ok h
         obtain ⟨i', hi, h⟩ := bind_ok h
@@ -353,9 +353,9 @@ mutual
         cases pure_ok h
         simp only [bndG]
         have htt := transfTarget_bnd n b t t' ht
-        exact app_sub (app_sub (app_sub (app_sub htt.1 htt.2) (transf_bnd n b i i' hi)) (transfList_bnd n b ifs ifs' hifs))
-          (transfComps_bnd n b gs gs'' hg)
-  termination_by structural _ x => x
+        exact app_sub (app_sub (app_sub (app_sub htt.1 htt.2) (transf_bnd n f i i' hi)) (transfList_bnd n b ifs ifs' hifs))
+          (transfComps_bnd n b b gs gs'' hg)
+  termination_by structural _ _ x => x
 
   theorem transfTarget_bnd (n : Nsp) : ∀ (b : List String) (t t' : Expr), transfTarget n b t = .ok t' →
       tgtNames t' ⊆ tgtNames t ∧ bnd t' ⊆ bnd t
